@@ -369,6 +369,11 @@ def floats(f, sel, facts):
                 viol('from_magnitude_sets_the_length', dim=dim, a=a, m=m, got=abs(fm))
             if not all(close(x * m, y * la, m * la) for x, y in zip(a, fm)):
                 viol('from_magnitude_keeps_the_direction', dim=dim, a=a, m=m, got=fm)
+        if la > 0:
+            for zero in (0, 0.0, Fraction(0)):
+                z = va.limit(zero)
+                if abs(z) > 1e-12:
+                    viol('limit_never_returns_a_vector_longer_than_m', dim=dim, v=va, m=zero, got=z, length=abs(z))
         # limit: ratio |v|/m concentrated in [0.3, 3], m on both sides of 1
         if la > 0:
             ratio = [0.3, 0.5, 0.8, 0.95, 1.05, 1.25, 1.7, 2.4, 3.0][sel % 9]
